@@ -227,6 +227,16 @@ LawFinish(s) ==
                   /\ \A k \in DOMAIN raw[p] : (\A i \in DOMAIN s.ders : s.ders[i].k # k) => c[k] = raw[p][k]
                   /\ \A i \in DOMAIN s.consts : s.consts[i].k \in DOMAIN c
 
+(* L3b: the order in which dims lists its groups only permutes the list (why a multiset comparison is the *)
+(*      right one when dims is not in item order)                                                        *)
+SortedGroups(items, dims) ==
+    [i \in DOMAIN dims |-> dims[CHOOSE g \in DOMAIN dims :
+        Cardinality({h \in DOMAIN dims : GroupPos(items, dims[h]) < GroupPos(items, dims[g])}) = i - 1]]
+LawOrderFree(s) ==
+    (ErrorOf(s) = "" /\ s.dims # NoDims) =>
+        /\ OrderFixed(s.items, SortedGroups(s.items, s.dims))
+        /\ SameBag(CombosOf(s), Combos(s.items, SortedGroups(s.items, s.dims), s.consts, s.ders, s.excl))
+
 (* L4: len(sweep) == len(sweep.list()) *)
 LawLen(s) == ErrorOf(s) = "" => LenOf(s) = Len(CombosOf(s))
 
